@@ -1,7 +1,346 @@
 import Driver.Wire
-/-! Driver commands of the Store area (filled in by the area's owner). -/
-namespace Marwood.Driver.Store
+import Marwood.Store.Prelude
+import Marwood.Spec.Store
+/-!
+Driver commands of the Store area.
 
-def handle (_cmd : String) (_args : List String) : Option String := none
+`c14 <op>…` runs an operation sequence through the model store (`Marwood.Store`), `c14s <op>…`
+through the reference store (`Marwood.Spec`). An op token is `proc,arg,…,arg`; op number `k` stands
+for the Scheme form `(define p<k> (proc arg …))`. Arguments: `p<j>` (pool variable), `i<int>`,
+`y<text>` (quoted symbol), `t` `f` `n` (`'()`), `c<codepoint>`, `b<name>` (a builtin procedure).
+The answer lists, for every step, the outcome and the rendering of all pool variables defined so
+far as one graph with sharing labels (`#k` assigned in order of first visit), so two stores that
+differ by a renaming of addresses render equally and aliasing is visible.
+After `map`/`for-each` fails, or after a panic, the sequence stops (effects of a half-executed
+library procedure are not compared).
+-/
+namespace Marwood.Driver.Store
+open Marwood Marwood.Wire Marwood.Store Marwood.Spec
+
+/-! ## rendering -/
+
+inductive Node (V : Type)
+  | atom (s : String)
+  | pair (key : Option Nat) (car cdr : V)
+  | vec (key : Option Nat) (elems : List V)
+  | str (key : Option Nat) (t : Text)
+
+structure RSt where
+  seen : List (String × Nat) := []
+  next : Nat := 0
+  out : String := ""
+
+def emit (x : String) : StateM RSt Unit := modify fun st => { st with out := st.out ++ x }
+
+/-- label of an identified node: `(label, first visit?)` -/
+def labelOf (kind : String) (key : Option Nat) : StateM RSt (Nat × Bool) := do
+  let st ← get
+  match key with
+  | some k =>
+    let name := kind ++ toString k
+    match st.seen.lookup name with
+    | some l => pure (l, false)
+    | none =>
+      set { st with seen := (name, st.next) :: st.seen, next := st.next + 1 }
+      pure (st.next, true)
+  | none =>
+    set { st with next := st.next + 1 }
+    pure (st.next, true)
+
+partial def renderV {V : Type} (cls : V → Node V) (v : V) : StateM RSt Unit := do
+  match cls v with
+  | .atom a => emit a
+  | .pair key a d =>
+    let (l, fresh) ← labelOf "p" key
+    if fresh then
+      emit s!"(#{l} "; renderV cls a; emit " "; renderV cls d; emit ")"
+    else emit s!"#{l}"
+  | .vec key xs =>
+    let (l, fresh) ← labelOf "v" key
+    if fresh then
+      emit s!"[#{l}"
+      for x in xs do
+        emit " "; renderV cls x
+      emit "]"
+    else emit s!"#{l}"
+  | .str key t =>
+    let (l, fresh) ← labelOf "s" key
+    if fresh then emit ("{#" ++ toString l ++ " " ++ encText t ++ "}") else emit s!"#{l}"
+
+def renderRoots {V : Type} (cls : V → Node V) (roots : List (Option V)) : String :=
+  let act : StateM RSt Unit := do
+    let mut first := true
+    for r in roots do
+      if !first then emit " "
+      first := false
+      match r with
+      | some v => renderV cls v
+      | none => emit "!"
+  (act.run {}).2.out
+
+def atomOfScalar (name : String) : String := name
+
+def clsModel (s : Store) (v : VCell) : Node VCell :=
+  let imm (c : VCell) : Node VCell :=
+    match c with
+    | .bool true => .atom "t"
+    | .bool false => .atom "f"
+    | .char c => .atom s!"c{c.toNat}"
+    | .nil => .atom "n"
+    | .num n => .atom s!"i{n}"
+    | .sym t => .atom ("y" ++ encText t)
+    | .void => .atom "v"
+    | .undef => .atom "u"
+    | .builtin n => .atom ("b" ++ n)
+    | .pair a d => .pair none (.ptr a) (.ptr d)      -- a pair value without a cell: no identity
+    | .vec id => match s.vecs[id]? with
+      | some xs => .vec (some id) xs
+      | none => .atom "DANGLING"
+    | .str id => match s.strs[id]? with
+      | some t => .str (some id) t
+      | none => .atom "DANGLING"
+    | .ptr _ => .atom "PTR-IN-CELL"
+  match v with
+  | .ptr a => match s.cells[a]? with
+    | some (.pair x y) => .pair (some a) (.ptr x) (.ptr y)
+    | some c => imm c
+    | none => .atom "DANGLING"
+  | c => imm c
+
+def clsSpec (st : RStore) (v : RVal) : Node RVal :=
+  match v with
+  | .bool true => .atom "t"
+  | .bool false => .atom "f"
+  | .char c => .atom s!"c{c.toNat}"
+  | .nil => .atom "n"
+  | .num n => .atom s!"i{n}"
+  | .sym t => .atom ("y" ++ encText t)
+  | .void => .atom "v"
+  | .undef => .atom "u"
+  | .builtin n => .atom ("b" ++ n)
+  | .pair l => match st.pairs[l]? with
+    | some (a, d) => .pair (some l) a d
+    | none => .atom "DANGLING"
+  | .vec l => match st.vecs[l]? with
+    | some xs => .vec (some l) xs
+    | none => .atom "DANGLING"
+  | .str l => match st.strs[l]? with
+    | some t => .str (some l) t
+    | none => .atom "DANGLING"
+
+/-! ## machines -/
+
+structure Machine (S V : Type) where
+  /-- literal token → value (may intern a symbol) -/
+  lit : S → String → Option (S × V)
+  /-- `none`: unknown operation -/
+  run : S → String → List V → Option (Outcome (S × V))
+  cls : S → V → Node V
+
+def parseInt (w : String) : Option Int := w.toInt?
+
+def litModel (s : Store) (w : String) : Option (Store × VCell) :=
+  if w == "t" then some (s, .bool true)
+  else if w == "f" then some (s, .bool false)
+  else if w == "n" then some (s, .nil)
+  else if w.startsWith "i" then (parseInt (w.drop 1).toString).map fun n => (s, .num n)
+  else if w.startsWith "y" then (decText (w.drop 1).toString).map fun t => s.put (.sym t)
+  else if w.startsWith "c" then do
+    let n ← (w.drop 1).toString.toNat?
+    if h : n.isValidChar then some (s, .char (Char.ofNatAux n h)) else none
+  else if w.startsWith "b" then some (s, .builtin (w.drop 1).toString)
+  else none
+
+def litSpec (st : RStore) (w : String) : Option (RStore × RVal) :=
+  if w == "t" then some (st, .bool true)
+  else if w == "f" then some (st, .bool false)
+  else if w == "n" then some (st, .nil)
+  else if w.startsWith "i" then (parseInt (w.drop 1).toString).map fun n => (st, .num n)
+  else if w.startsWith "y" then (decText (w.drop 1).toString).map fun t => (st, .sym t)
+  else if w.startsWith "c" then do
+    let n ← (w.drop 1).toString.toNat?
+    if h : n.isValidChar then some (st, .char (Char.ofNatAux n h)) else none
+  else if w.startsWith "b" then some (st, .builtin (w.drop 1).toString)
+  else none
+
+/-- fuel handed to every model loop: more than any acyclic structure in the store can use -/
+def fuelOf (s : Store) : Nat :=
+  2 * s.cells.length + s.vecs.length + (s.vecs.foldl (fun n v => n + v.length) 0) + 16
+
+/-- lift a value-returning prelude function to a `Res` -/
+def liftV (s : Store) (r : Outcome VCell) : Res := do .ok (s, ← r)
+
+/-- builtins that can be the callee of `map` / `for-each` (and the plain operations) -/
+def runModelBase (s : Store) (name : String) (args : List VCell) : Option Res :=
+  let fuel := fuelOf s
+  match name with
+  | "cons" => some (cons s args)
+  | "car" => some (car s args)
+  | "cdr" => some (cdr s args)
+  | "set-car!" => some (setCar s args)
+  | "set-cdr!" => some (setCdr s args)
+  | "list" => some (list s args)
+  | "append" => some (append fuel s args)
+  | "reverse" => some (reverse fuel s args)
+  | "list-tail" => some (listTail s args)
+  | "list-ref" => some (listRef s args)
+  | "list?" => some (isList fuel s args)
+  | "length" => some (match args with | [l] => liftV s (length fuel s l) | _ => .err .arity)
+  | "memq" => some (match args with | [x, l] => liftV s (memq fuel s x l) | _ => .err .arity)
+  | "memv" => some (match args with | [x, l] => liftV s (memv fuel s x l) | _ => .err .arity)
+  | "member" => some (match args with | [x, l] => liftV s (member fuel s x l) | _ => .err .arity)
+  | "assq" => some (match args with | [x, l] => liftV s (assq fuel s x l) | _ => .err .arity)
+  | "assv" => some (match args with | [x, l] => liftV s (assv fuel s x l) | _ => .err .arity)
+  | "assoc" => some (match args with | [x, l] => liftV s (assoc fuel s x l) | _ => .err .arity)
+  | "equal?" => some (equalB fuel s args)
+  | "eq?" => some (eqvB s args)
+  | "eqv?" => some (eqvB s args)
+  | "vector" => some (vector s args)
+  | "make-vector" => some (makeVector s args)
+  | "vector-length" => some (vectorLength s args)
+  | "vector-ref" => some (vectorRef s args)
+  | "vector-set!" => some (vectorSet s args)
+  | "vector-fill!" => some (vectorFill s args)
+  | "vector->list" => some (vectorToList s args)
+  | "list->vector" => some (listToVector fuel s args)
+  | "vector-copy" => some (vectorCopy s args)
+  | "vector-copy!" => some (vectorCopyBang s args)
+  | _ => none
+
+/-- a procedure value applied by `map`/`for-each`; a closure result goes back through `finish`
+    exactly like a direct call -/
+def calleeModel (f : VCell) : Callee := fun s args =>
+  match f with
+  | .builtin name => match runModelBase s name args with
+    | some r => r
+    | none => .err .notProc
+  | _ => .err .notProc
+
+def runModel (s : Store) (name : String) (args : List VCell) : Option Res :=
+  match name, args with
+  | "map", f :: ls => if ls.isEmpty then some (.err .arity) else some (map (calleeModel f) (fuelOf s) s ls)
+  | "for-each", f :: ls => if ls.isEmpty then some (.err .arity) else some (forEach (calleeModel f) (fuelOf s) s ls)
+  | "map", [] => some (.err .arity)
+  | "for-each", [] => some (.err .arity)
+  | _, _ => runModelBase s name args
+
+def runSpecBase (st : RStore) (name : String) (args : List RVal) : Option RRes :=
+  match name with
+  | "cons" => some (rCons st args)
+  | "car" => some (rCar st args)
+  | "cdr" => some (rCdr st args)
+  | "set-car!" => some (rSetCar st args)
+  | "set-cdr!" => some (rSetCdr st args)
+  | "list" => some (rList st args)
+  | "append" => some (rAppend st args)
+  | "reverse" => some (rReverse st args)
+  | "list-tail" => some (rListTail st args)
+  | "list-ref" => some (rListRef st args)
+  | "list?" => some (rIsList st args)
+  | "length" => some (rLength st args)
+  | "memq" => some (rMemq st args)
+  | "memv" => some (rMemq st args)
+  | "member" => some (rMember st args)
+  | "assq" => some (rAssq st args)
+  | "assv" => some (rAssq st args)
+  | "assoc" => some (rAssoc st args)
+  | "equal?" => some (rEqual st args)
+  | "eq?" => some (match args with | [a, b] => .ok (st, .bool (eqvR a b)) | _ => .err .arity)
+  | "eqv?" => some (match args with | [a, b] => .ok (st, .bool (eqvR a b)) | _ => .err .arity)
+  | "vector" => some (rVector st args)
+  | "make-vector" => some (rMakeVector st args)
+  | "vector-length" => some (rVectorLength st args)
+  | "vector-ref" => some (rVectorRef st args)
+  | "vector-set!" => some (rVectorSet st args)
+  | "vector-fill!" => some (rVectorFill st args)
+  | "vector->list" => some (rVectorToList st args)
+  | "list->vector" => some (rListToVector st args)
+  | "vector-copy" => some (rVectorCopy st args)
+  | "vector-copy!" => some (rVectorCopyBang st args)
+  | _ => none
+
+def calleeSpec (f : RVal) : RCallee := fun st args =>
+  match f with
+  | .builtin name => match runSpecBase st name args with
+    | some r => r
+    | none => .err .notProc
+  | _ => .err .notProc
+
+def runSpec (st : RStore) (name : String) (args : List RVal) : Option RRes :=
+  match name, args with
+  | "map", f :: ls => if ls.isEmpty then some (.err .arity) else some (rMap (calleeSpec f) st ls)
+  | "for-each", f :: ls => if ls.isEmpty then some (.err .arity) else some (rForEach (calleeSpec f) st ls)
+  | "map", [] => some (.err .arity)
+  | "for-each", [] => some (.err .arity)
+  | _, _ => runSpecBase st name args
+
+def modelMachine : Machine Store VCell := ⟨litModel, runModel, clsModel⟩
+def specMachine : Machine RStore RVal := ⟨litSpec, runSpec, clsSpec⟩
+
+/-! ## the sequence interpreter (shared by model and spec) -/
+
+/-- evaluate the argument tokens left to right; `none` = undecodable token;
+    `some (s, none)` = reference to a pool variable that is not bound -/
+def evalArgs {S V : Type} (m : Machine S V) (pool : List (Option V)) :
+    S → List String → Option (S × Option (List V))
+  | s, [] => some (s, some [])
+  | s, w :: ws =>
+    if w.startsWith "p" then
+      match (w.drop 1).toString.toNat? with
+      | none => none
+      | some j =>
+        match pool[j]? with
+        | some (some v) =>
+          match evalArgs m pool s ws with
+          | some (s, some vs) => some (s, some (v :: vs))
+          | r => r
+        | _ =>
+          -- unbound: still decode the rest so that a malformed token is reported as such
+          match evalArgs m pool s ws with
+          | some (s, _) => some (s, none)
+          | none => none
+    else
+      match m.lit s w with
+      | none => none
+      | some (s, v) =>
+        match evalArgs m pool s ws with
+        | some (s, some vs) => some (s, some (v :: vs))
+        | r => r
+
+def stopsAfterFailure (name : String) : Bool := name == "map" || name == "for-each"
+
+def runSeq {S V : Type} (m : Machine S V) : S → List (Option V) → List String → List String → Option (List String)
+  | _, _, [], acc => some acc.reverse
+  | s, pool, op :: ops, acc =>
+    match op.splitOn "," with
+    | [] => none
+    | name :: argToks =>
+      match evalArgs m pool s argToks with
+      | none => none
+      | some (s1, none) =>
+        let pool := pool ++ [none]
+        runSeq m s pool ops (("err " ++ renderRoots (m.cls s) pool) :: acc)
+      | some (s1, some args) =>
+        match m.run s1 name args with
+        | none => none
+        | some (.ok (s2, v)) =>
+          let pool := pool ++ [some v]
+          runSeq m s2 pool ops (("ok " ++ renderRoots (m.cls s2) pool) :: acc)
+        | some (.err _) =>
+          if stopsAfterFailure name then some (("err" :: acc).reverse)
+          else
+            let pool := pool ++ [none]
+            runSeq m s pool ops (("err " ++ renderRoots (m.cls s) pool) :: acc)
+        | some (.panic _) => some (("panic" :: acc).reverse)
+        | some .diverge => some (("diverge" :: acc).reverse)
+
+def answer (steps : Option (List String)) : Option String :=
+  steps.map fun xs => "ok " ++ "|".intercalate xs
+
+def handle (cmd : String) (args : List String) : Option String :=
+  match cmd with
+  | "c14" => answer (runSeq modelMachine Store.empty [] args [])
+  | "c14s" => answer (runSeq specMachine RStore.empty [] args [])
+  | _ => none
 
 end Marwood.Driver.Store
